@@ -31,7 +31,8 @@ def run(ctx):
     ctx.add_family(agg)
     # (2) inline equivalence on the ideal machine, via TLC on both programs
     # P8 (macroname) and P9 (assignments by code blocks stay inside the macro or filler) are not inline-equivalent by design
-    eq = [p for p in progs if "P8" not in p["fam"] and "P9" not in p["fam"]]
+    # P10 (the macro is chosen by a variable at every use) has no static inlining; it is checked against the machine
+    eq = [p for p in progs if "P8" not in p["fam"] and "P9" not in p["fam"] and "P10" not in p["fam"]]
     inl = [inline(p) for p in eq]
     a = run_family("C09ideal", eq, NAMES, dev=[], invariants=INVS, replay=False, timeout=3000, nshards=8, collect=True)
     b = run_family("C09inlined", inl, NAMES, dev=[], invariants=INVS, replay=False, timeout=3000, nshards=8, collect=True)
